@@ -435,3 +435,413 @@ func (g *generator) genRuleState() (string, error) {
 	g.facts["rule_state_assignments"] = len(recs)
 	return b.String(), nil
 }
+
+// genMapRanges: every `range` over a map-typed expression in non-test files.
+func (g *generator) genMapRanges() (string, error) {
+	p, err := loadPkg(g.repo)
+	if err != nil {
+		return "", err
+	}
+	type rec struct {
+		file, fn, expr string
+		n          int
+		effects    string
+	}
+	var recs []rec
+	names := make([]string, 0, len(p.files))
+	for n := range p.files {
+		names = append(names, n)
+	}
+	sort.Strings(names)
+	exprText := func(e ast.Expr) string {
+		var sb strings.Builder
+		var w func(e ast.Expr)
+		w = func(e ast.Expr) {
+			switch x := e.(type) {
+			case *ast.Ident:
+				sb.WriteString(x.Name)
+			case *ast.SelectorExpr:
+				w(x.X)
+				sb.WriteString("." + x.Sel.Name)
+			case *ast.IndexExpr:
+				w(x.X)
+				sb.WriteString("[…]")
+			case *ast.CallExpr:
+				w(x.Fun)
+				sb.WriteString("(…)")
+			case *ast.ParenExpr:
+				w(x.X)
+			case *ast.TypeAssertExpr:
+				w(x.X)
+				sb.WriteString(".(T)")
+			case *ast.StarExpr:
+				w(x.X)
+			default:
+				sb.WriteString("?")
+			}
+		}
+		w(e)
+		return sb.String()
+	}
+	for _, fname := range names {
+		for _, d := range p.files[fname].Decls {
+			fd, ok := d.(*ast.FuncDecl)
+			if !ok || fd.Body == nil {
+				continue
+			}
+			count := map[string]int{}
+			ast.Inspect(fd.Body, func(n ast.Node) bool {
+				rs, ok := n.(*ast.RangeStmt)
+				if !ok {
+					return true
+				}
+				tv, ok := p.info.Types[rs.X]
+				if !ok {
+					return true
+				}
+				if _, isMap := tv.Type.Underlying().(*types.Map); !isMap {
+					return true
+				}
+				// what the body does that could expose the order
+				var eff []string
+				seen := map[string]bool{}
+				add := func(s string) {
+					if !seen[s] {
+						seen[s] = true
+						eff = append(eff, s)
+					}
+				}
+				ast.Inspect(rs.Body, func(m ast.Node) bool {
+					switch x := m.(type) {
+					case *ast.CallExpr:
+						if sel, ok := x.Fun.(*ast.SelectorExpr); ok {
+							switch sel.Sel.Name {
+							case "Errorf", "Error", "errorf", "error", "errorAt", "errorfAt":
+								add("report")
+							}
+						}
+						if id, ok := x.Fun.(*ast.Ident); ok && id.Name == "append" {
+							add("append")
+						}
+					case *ast.ReturnStmt:
+						add("return")
+					case *ast.BranchStmt:
+						if x.Tok == token.BREAK {
+							add("break")
+						}
+					}
+					return true
+				})
+				sort.Strings(eff)
+				t := exprText(rs.X)
+				count[t]++
+				recs = append(recs, rec{fname, fd.Name.Name, t, count[t], strings.Join(eff, "+")})
+				return true
+			})
+		}
+	}
+	var b strings.Builder
+	b.WriteString("namespace AL.Gen\n\n/-- every `range` over a map in non-test files: (file, function, ranged expression, occurrence in the function, order-sensitive effects in the body) -/\ndef mapRanges : List (String × String × String × Nat × String) := [\n")
+	for i, r := range recs {
+		sep := ","
+		if i == len(recs)-1 {
+			sep = ""
+		}
+		fmt.Fprintf(&b, "  (%s, %s, %s, %d, %s)%s\n", lstr(r.file), lstr(r.fn), lstr(r.expr), r.n, lstr(r.effects), sep)
+	}
+	b.WriteString("]\n\nend AL.Gen\n")
+	g.facts["map_ranges"] = len(recs)
+	return b.String(), nil
+}
+
+// genMutators: every in-place sort in non-test files, with the sorted expression and how that
+// expression was created in the enclosing function (make / literal / append / parameter / other).
+func (g *generator) genMutators() (string, error) {
+	p, err := loadPkg(g.repo)
+	if err != nil {
+		return "", err
+	}
+	type rec struct{ file, fn, call, arg, origin string }
+	var recs []rec
+	names := make([]string, 0, len(p.files))
+	for n := range p.files {
+		names = append(names, n)
+	}
+	sort.Strings(names)
+	for _, fname := range names {
+		for _, d := range p.files[fname].Decls {
+			fd, ok := d.(*ast.FuncDecl)
+			if !ok || fd.Body == nil {
+				continue
+			}
+			// origin of local identifiers
+			origin := map[string]string{}
+			if fd.Type.Params != nil {
+				for _, f := range fd.Type.Params.List {
+					for _, n := range f.Names {
+						origin[n.Name] = "parameter"
+					}
+				}
+			}
+			ast.Inspect(fd.Body, func(n ast.Node) bool {
+				as, ok := n.(*ast.AssignStmt)
+				if !ok || as.Tok != token.DEFINE && as.Tok != token.ASSIGN {
+					return true
+				}
+				for i, l := range as.Lhs {
+					id, ok := l.(*ast.Ident)
+					if !ok || i >= len(as.Rhs) {
+						continue
+					}
+					o := "other"
+					switch r := as.Rhs[i].(type) {
+					case *ast.CallExpr:
+						if f, ok := r.Fun.(*ast.Ident); ok && (f.Name == "make" || f.Name == "append") {
+							o = "fresh"
+							if f.Name == "append" {
+								// appending to itself keeps the origin
+								if a0, ok := r.Args[0].(*ast.Ident); ok && a0.Name == id.Name {
+									continue
+								}
+								o = "append"
+							}
+						}
+					case *ast.CompositeLit:
+						o = "fresh"
+					}
+					if _, seen := origin[id.Name]; !seen || o == "fresh" {
+						origin[id.Name] = o
+					}
+				}
+				return true
+			})
+			ast.Inspect(fd.Body, func(n ast.Node) bool {
+				ce, ok := n.(*ast.CallExpr)
+				if !ok {
+					return true
+				}
+				sel, ok := ce.Fun.(*ast.SelectorExpr)
+				if !ok {
+					return true
+				}
+				pkgID, ok := sel.X.(*ast.Ident)
+				if !ok || pkgID.Name != "sort" || len(ce.Args) == 0 {
+					return true
+				}
+				arg := ce.Args[0]
+				// unwrap conversions like ByErrorPosition(all)
+				if c2, ok := arg.(*ast.CallExpr); ok && len(c2.Args) == 1 {
+					arg = c2.Args[0]
+				}
+				text, org := "?", "other"
+				switch a := arg.(type) {
+				case *ast.Ident:
+					text = a.Name
+					if o, ok := origin[a.Name]; ok {
+						org = o
+					}
+				case *ast.SelectorExpr:
+					if x, ok := a.X.(*ast.Ident); ok {
+						text = x.Name + "." + a.Sel.Name
+					}
+					org = "field"
+				}
+				recs = append(recs, rec{fname, fd.Name.Name, "sort." + sel.Sel.Name, text, org})
+				return true
+			})
+		}
+	}
+	var b strings.Builder
+	b.WriteString("namespace AL.Gen\n\n/-- every in-place sort in non-test files: (file, function, call, sorted expression, origin of that expression in the function) -/\ndef inPlaceSorts : List (String × String × String × String × String) := [\n")
+	for i, r := range recs {
+		sep := ","
+		if i == len(recs)-1 {
+			sep = ""
+		}
+		fmt.Fprintf(&b, "  (%s, %s, %s, %s, %s)%s\n", lstr(r.file), lstr(r.fn), lstr(r.call), lstr(r.arg), lstr(r.origin), sep)
+	}
+	b.WriteString("]\n\nend AL.Gen\n")
+	g.facts["in_place_sorts"] = len(recs)
+	return b.String(), nil
+}
+
+// genPanics: every explicit panic in non-test files; for a panic in the default branch of a switch, the
+// case labels of that switch and the universe of values that can reach it (implementers of the switched
+// interface / constants of the switched type).
+func (g *generator) genPanics() (string, error) {
+	p, err := loadPkg(g.repo)
+	if err != nil {
+		return "", err
+	}
+	type rec struct {
+		file, fn, kind string
+		cases, universe []string
+	}
+	var recs []rec
+	names := make([]string, 0, len(p.files))
+	for n := range p.files {
+		names = append(names, n)
+	}
+	sort.Strings(names)
+	isPanic := func(s ast.Stmt) bool {
+		es, ok := s.(*ast.ExprStmt)
+		if !ok {
+			return false
+		}
+		ce, ok := es.X.(*ast.CallExpr)
+		if !ok {
+			return false
+		}
+		id, ok := ce.Fun.(*ast.Ident)
+		return ok && id.Name == "panic"
+	}
+	implementers := func(iface *types.Interface) []string {
+		var out []string
+		scope := p.pkg.Scope()
+		for _, n := range scope.Names() {
+			tn, ok := scope.Lookup(n).(*types.TypeName)
+			if !ok {
+				continue
+			}
+			t := tn.Type()
+			if _, isIface := t.Underlying().(*types.Interface); isIface {
+				continue
+			}
+			if types.Implements(t, iface) {
+				out = append(out, n)
+			} else if types.Implements(types.NewPointer(t), iface) {
+				out = append(out, "*"+n)
+			}
+		}
+		sort.Strings(out)
+		return out
+	}
+	constsOf := func(t types.Type) []string {
+		var out []string
+		scope := p.pkg.Scope()
+		for _, n := range scope.Names() {
+			c, ok := scope.Lookup(n).(*types.Const)
+			if ok && types.Identical(c.Type(), t) {
+				out = append(out, n)
+			}
+		}
+		sort.Strings(out)
+		return out
+	}
+	typeText := func(e ast.Expr) string {
+		switch x := e.(type) {
+		case *ast.Ident:
+			return x.Name
+		case *ast.StarExpr:
+			if id, ok := x.X.(*ast.Ident); ok {
+				return "*" + id.Name
+			}
+		case *ast.SelectorExpr:
+			if id, ok := x.X.(*ast.Ident); ok {
+				return id.Name + "." + x.Sel.Name
+			}
+		case *ast.ArrayType:
+			return "[]any"
+		case *ast.MapType:
+			return "map"
+		}
+		return "?"
+	}
+	for _, fname := range names {
+		for _, d := range p.files[fname].Decls {
+			fd, ok := d.(*ast.FuncDecl)
+			if !ok || fd.Body == nil {
+				continue
+			}
+			covered := map[ast.Stmt]bool{}
+			ast.Inspect(fd.Body, func(n ast.Node) bool {
+				switch sw := n.(type) {
+				case *ast.TypeSwitchStmt:
+					var cases []string
+					hasPanicDefault := false
+					for _, st := range sw.Body.List {
+						cc := st.(*ast.CaseClause)
+						if cc.List == nil {
+							for _, s := range cc.Body {
+								if isPanic(s) {
+									hasPanicDefault = true
+									covered[s] = true
+								}
+							}
+						}
+						for _, e := range cc.List {
+							cases = append(cases, typeText(e))
+						}
+					}
+					if hasPanicDefault {
+						// switched expression's static type
+						var x ast.Expr
+						switch a := sw.Assign.(type) {
+						case *ast.AssignStmt:
+							x = a.Rhs[0].(*ast.TypeAssertExpr).X
+						case *ast.ExprStmt:
+							x = a.X.(*ast.TypeAssertExpr).X
+						}
+						var uni []string
+						if tv, ok := p.info.Types[x]; ok {
+							if it, ok := tv.Type.Underlying().(*types.Interface); ok && it.NumMethods() > 0 {
+								uni = implementers(it)
+							} else {
+								uni = []string{"<any: values produced by a third-party decoder>"}
+							}
+						}
+						sort.Strings(cases)
+						recs = append(recs, rec{fname, fd.Name.Name, "type-switch-default", cases, uni})
+					}
+				case *ast.SwitchStmt:
+					var cases []string
+					hasPanicDefault := false
+					for _, st := range sw.Body.List {
+						cc := st.(*ast.CaseClause)
+						if cc.List == nil {
+							for _, s := range cc.Body {
+								if isPanic(s) {
+									hasPanicDefault = true
+									covered[s] = true
+								}
+							}
+						}
+						for _, e := range cc.List {
+							cases = append(cases, typeText(e))
+						}
+					}
+					if hasPanicDefault && sw.Tag != nil {
+						var uni []string
+						if tv, ok := p.info.Types[sw.Tag]; ok {
+							if _, isNamed := tv.Type.(*types.Named); isNamed {
+								uni = constsOf(tv.Type)
+							}
+						}
+						sort.Strings(cases)
+						recs = append(recs, rec{fname, fd.Name.Name, "switch-default", cases, uni})
+					}
+				}
+				return true
+			})
+			// remaining panics
+			ast.Inspect(fd.Body, func(n ast.Node) bool {
+				if s, ok := n.(*ast.ExprStmt); ok && isPanic(s) && !covered[s] {
+					recs = append(recs, rec{fname, fd.Name.Name, "other", nil, nil})
+				}
+				return true
+			})
+		}
+	}
+	var b strings.Builder
+	b.WriteString("namespace AL.Gen\n\n/-- every explicit `panic(...)` in non-test files: (file, function, kind, case labels of the enclosing switch, universe of values that can reach the switch) -/\ndef panicSites : List (String × String × String × List String × List String) := [\n")
+	for i, r := range recs {
+		sep := ","
+		if i == len(recs)-1 {
+			sep = ""
+		}
+		fmt.Fprintf(&b, "  (%s, %s, %s, %s, %s)%s\n", lstr(r.file), lstr(r.fn), lstr(r.kind), lstrs(r.cases), lstrs(r.universe), sep)
+	}
+	b.WriteString("]\n\nend AL.Gen\n")
+	g.facts["panic_sites"] = len(recs)
+	return b.String(), nil
+}
